@@ -103,7 +103,7 @@ fn refc_debug(out: &mut dyn Write, path: &str) -> i32 {
 fn main() {
     let argv: Vec<String> = std::env::args().collect();
     cc::install_panic_hook();
-    let mut out = cc::silence_stdio();
+    let mut out = if std::env::var("C03_DEBUG").is_ok() { std::fs::File::create("/dev/stdout").unwrap() } else { cc::silence_stdio() };
     let seed: u64 = std::env::var("VERIF_SEED").ok().and_then(|s| s.trim().parse::<i64>().ok()).map(|v| v as u64).unwrap_or(20260925);
     let mut tier = match std::env::var("VERIF_TIER").ok().as_deref() { Some("thorough") => report::Tier::Thorough, _ => report::Tier::Quick };
     let mut scale = std::env::var("VERIF_SCALE").ok().and_then(|s| s.parse().ok()).unwrap_or(100u32);
@@ -130,6 +130,22 @@ fn main() {
                 let v = report::read_json(std::path::Path::new(p)).unwrap();
                 let case: sem::SemCase = serde_json::from_value(v["case"].clone()).unwrap();
                 writeln!(out, "{} -> {:?}", p, excl::find_excluded(&case.prog, &ex)).ok();
+            }
+            0
+        }
+        Some("c03text") => {
+            let v = report::read_json(std::path::Path::new(&pos[0])).unwrap();
+            let sk: checks::c03::Skeleton = serde_json::from_value(v["skeleton"].clone()).unwrap();
+            let mut code = checks::c03::build(&sk);
+            let n = code.check_branches();
+            let mut text: Vec<u8> = vec![];
+            code.write(&mut text, false).ok();
+            writeln!(out, "fixes={}", n).ok();
+            let mut run = 0;
+            for l in String::from_utf8_lossy(&text).lines() {
+                let t = l.trim();
+                let interesting = !l.starts_with('\t') || t.starts_with('B') || t.starts_with("JMP") || t.starts_with("LDA") || t.starts_with("CMP");
+                if interesting { if run > 0 { writeln!(out, "   <{} lines>", run).ok(); run = 0; } writeln!(out, "{}", l).ok(); } else { run += 1; }
             }
             0
         }
